@@ -214,7 +214,9 @@ class Ctx:
         return thorough if self.thorough else quick
 
     # -- Coq evaluation --------------------------------------------------------
-    def _coqc(self, path, timeout, extra_flags=()):
+    def _coqc(self, path, timeout, extra_flags=(), _retry=True):
+        """one coqc call; a call that hits its time limit is repeated once with three times the limit (a loaded
+        machine must not turn into a correspondence failure)"""
         t = time.time()
         try:
             p = subprocess.run(["coqc"] + COQ_FLAGS + list(extra_flags) + [path], capture_output=True, text=True, timeout=timeout,
@@ -223,6 +225,9 @@ class Ctx:
         except subprocess.TimeoutExpired as e:
             out, err, rc = (e.stdout or b"").decode() if isinstance(e.stdout, bytes) else (e.stdout or ""), "TIMEOUT", 124
         self.coq_time += time.time() - t
+        if rc == 124 and _retry:
+            self.notes.append("coqc hit its %d s limit on %s and was repeated with %d s" % (timeout, os.path.basename(path), 3 * timeout))
+            return self._coqc(path, 3 * timeout, extra_flags, _retry=False)
         return rc, out, err
 
     def coq_compare(self, name, header, case_type, obs_type, run, eqb, cases, expected, meta=None,
